@@ -167,7 +167,7 @@ int main(int argc, char **argv)
     live = (argc > 1 && !strcmp(argv[1], "live"));
     if (argc > 2) lcg = strtoul(argv[2], NULL, 10) * 2654435761UL + 1;
     setvbuf(stdout, NULL, _IOLBF, 0);
-    alarm(120);
+    alarm(live ? 60 : 300);            /* watchdog: a live run takes well under a second */
     printf("K %d %d %d %d %u\n", QTHREAD_SUCCESS, QTHREAD_BADARGS, QTHREAD_NOT_ALLOWED, QTHREAD_PTHREAD_ERROR, (unsigned)NO_SHEPHERD);
     if (live) {
         if (qthread_initialize() != QTHREAD_SUCCESS) { printf("INITFAIL\n"); return 2; }
